@@ -19,12 +19,12 @@ LIFE = {
     "C04": dict(models=["base_exp"], tmodels=["base_conf", "overlap"], fams=["base", "overlap"], crashes=(0,), wf=0, rf=0, heights=True,
                 extra=["late_replay"]),
     "C05": dict(focus=["Overlap", "Live"], models=["overlap", "overlapc", "restart"], tmodels=["overlap3", "t_overlap2", "t_restart3"], fams=["overlap", "overlap3", "base"],
-                crashes=(0, 1, 1), wf=0, rf=0, trf=1, extra=["e2e_lostreply", "write_fault", "late_replay"]),
+                crashes=(0, 1, 1), wf=0, rf=0, trf=1, extra=["e2e_lostreply", "write_fault", "late_replay", "stale_tail"]),
     "C06": dict(live=["live"], models=["base_conf", "faults"], tmodels=["base_exp", "base_tot", "t_faults2"], fams=["base", "amtless", "other", "overlap", "twohash"],
                 crashes=(0,), wf=1, rf=1, extra=["garbage", "class-raw", "e2e_burst", "slow_decision"]),
     "C07": dict(models=["base_conf", "base_exp", "base_tot", "base_amtless"], tmodels=["overlap"], fams=["base", "amtless"],
                 crashes=(0,), wf=0, rf=0, extra=["slow_decision", "late_bad"]),
-    "C08": dict(extra=["wait_timeout", "write_fault", "late_replay", "late_bad"], focus=["Overlap", "Live"], models=["overlap", "faults", "restart"], tmodels=["t_overlap2", "t_faults2"], fams=["overlap", "base", "amtless"],
+    "C08": dict(extra=["wait_timeout", "write_fault", "late_replay", "late_bad", "stale_tail"], focus=["Overlap", "Live"], models=["overlap", "faults", "restart"], tmodels=["t_overlap2", "t_faults2"], fams=["overlap", "base", "amtless"],
                 crashes=(0, 1), wf=1, rf=0),
     "C09": dict(models=["wedge", "faults"], tmodels=["t_faults2", "restart"], fams=["base", "overlap"], crashes=(0, 1, 1), wf=1, rf=0, probes=3,
                 extra=["write_fault"]),
@@ -259,6 +259,10 @@ def build_jobs(pid, tier, seed, workdir):
         dj = scen.late_replay_jobs(start_run=runno)
         jobs += dj; runno += len(dj)
         sched_stats["directed late-replay schedules"] = len(dj)
+    if "stale_tail" in ex:
+        dj = scen.stale_tail_jobs(start_run=runno)
+        jobs += dj; runno += len(dj)
+        sched_stats["directed slow-bookkeeping-of-the-old-lifecycle schedules"] = len(dj)
     if "late_bad" in ex:
         dj = scen.late_bad_jobs(start_run=runno)
         jobs += dj; runno += len(dj)
